@@ -213,7 +213,7 @@ Section FromMsHistory.
     refine (foldM_inv _ (fun x => b_mms x = b_mms s /\ b_ends x = b_ends s) _ _ _ _ _ H); [|auto].
     clear. intros x [[j k] p] x' Hx Hf.
     destruct (filter _ _); [injection Hf as <-; exact Hx|].
-    destruct (neqb _ n0).
+    destruct (neqb _ n0 && memn _ _).
     - mbind Hf ds Hds. injection Hf as <-. exact Hx.
     - injection Hf as <-. exact Hx.
   Qed.
